@@ -375,7 +375,9 @@ impl<'de, R: Reader<'de>> Deserializer<R> {
             let n = if cfg.utf8_lossy && self.parser.read.next_invalid_utf8() != usize::MAX {
                 // repr the invalid utf8, not need to care about the invalid UTF8 char in non-string
                 // parts, it will cause errors when parsing.
-                val.parse_with_padding(String::from_utf8_lossy(json).as_bytes(), cfg)?
+                let n = val.parse_with_padding(String::from_utf8_lossy(json).as_bytes(), cfg)?;
+                // `n` counts the bytes of the repaired text, the reader walks the original input
+                crate::util::utf8::lossy_offset_to_origin(json, n)
             } else {
                 val.parse_with_padding(json, cfg)?
             };
